@@ -74,9 +74,20 @@ func genC20Breaker(r *h.Rng, tier string, idx int) *h.Plan {
 	p.Cfg["limit"] = limit
 	p.Cfg["interval_ns"] = int64(interval)
 	tick := interval / 20
-	segs := r.Range(1, 4)
+	segs := r.Range(1, 6)
+	if r.P(1, 4) {
+		// window-edge scenario: a call opens the window, more calls arrive
+		// part-way into a tick, then nothing happens for about one interval
+		// (from just under it to a few ticks over it), then a burst
+		segs = r.Range(0, 2)
+		p.Ops = append(p.Ops, h.Op{K: "burst", N: int64(r.Range(1, limit))})
+		p.Ops = append(p.Ops, h.Op{K: "sleep", N: int64(time.Duration(r.Range(1, 99)) * tick / 100)})
+		p.Ops = append(p.Ops, h.Op{K: "burst", N: int64(r.Range(1, limit))})
+		p.Ops = append(p.Ops, h.Op{K: "sleep", N: int64(interval + time.Duration(r.Range(-30, 50))*tick/20)})
+		p.Ops = append(p.Ops, h.Op{K: "burst", N: int64(r.Range(1, 3*limit)), B: r.Bool()})
+	}
 	for s := 0; s < segs; s++ {
-		switch r.Intn(4) {
+		switch r.Weighted([]int{3, 1, 1, 2, 2, 2}) {
 		case 0: // burst at one instant (k callers at the same instant)
 			p.Ops = append(p.Ops, h.Op{K: "burst", N: int64(r.Range(1, 3*limit)), B: r.Bool()})
 		case 1: // steady polling faster than a tick, for longer than the interval
@@ -96,6 +107,10 @@ func genC20Breaker(r *h.Rng, tier string, idx int) *h.Plan {
 			p.Ops = append(p.Ops, h.Op{K: "poll", N: int64(period), C: n + 1})
 		case 3:
 			p.Ops = append(p.Ops, h.Op{K: "sleep", N: int64(time.Duration(r.Range(1, 30)) * tick / 2)})
+		case 4: // part of a tick: what follows arrives inside a tick, not on its boundary
+			p.Ops = append(p.Ops, h.Op{K: "sleep", N: int64(time.Duration(r.Range(1, 99)) * tick / 100)})
+		case 5: // an idle gap about as long as the interval (just under .. a few ticks over)
+			p.Ops = append(p.Ops, h.Op{K: "sleep", N: int64(interval + time.Duration(r.Range(-30, 70))*tick/20)})
 		}
 	}
 	return p
